@@ -7,4 +7,5 @@
 pub mod benchlab;
 pub mod paint;
 pub mod pure;
+pub mod shim;
 pub mod vclock;
